@@ -189,7 +189,11 @@ theorem rmUploads_ok (r : DirRepo) (hs : r.sessions = 0) (c1 : r.upLeft = false)
 theorem pruneEmpty_clean (r : DirRepo) (hd : r.repoDir = true) (hs : r.sessions = 0) (c1 : r.upLeft = false)
     (c2 : r.strayBlobs = false) (c3 : r.strayRoot = false) (hb : r.blobs = []) :
     (pruneEmpty r).repoDir = false ∧ (pruneEmpty r).live = false := by
-  sorry
+  unfold pruneEmpty
+  rw [if_neg (by simp [hd])]
+  simp only [List.singleton_append, List.append_assoc, List.cons_append, List.nil_append]
+  rw [rmSeq_cons_true (rmUploads_ok r hs c1), rmSeq_algos_empty _ r.algos { r with uploadsDir := false } rfl hb c2]
+  cases hbd : r.blobsDir <;> simp [rmSeq, rmBlobs, rmIndexFile, rmLayoutFile, rmRepoDir, c3, hbd, hd]
 
 /-- C06 (F7 repaired): with `EmptyRepo`, a repository whose collection leaves no entry and no blob — no upload session,
     no foreign file — is removed entirely: no directory, no leftover file, whatever algorithm directories it had -/
